@@ -37,7 +37,15 @@ import (
 	"verifharness/hx"
 )
 
-const waitFor = 2 * time.Second // "did not happen" bound; never reached on the unchanged tree
+// "did not happen" bound: never reached on the unchanged tree. Once it has been reached (so the run already
+// carries a violation) later waits are cut short, so that a broken tree is reported in minutes, not hours.
+var waitFor = 2 * time.Second
+
+func timedOut() {
+	if waitFor > 100*time.Millisecond {
+		waitFor = 100 * time.Millisecond
+	}
+}
 const keyGroups = 8
 
 type eng struct{}
@@ -302,6 +310,7 @@ func (h *harness) waitDeploy() depRec {
 		select {
 		case <-h.arrived:
 		case <-deadline:
+			timedOut()
 			goto done
 		}
 	}
@@ -506,7 +515,11 @@ func (h *harness) fin(ok bool, who int) step {
 			h.mu.Lock()
 			na := len(h.arrivals)
 			h.mu.Unlock()
-			if st != "Starting" || na > 0 || time.Now().After(deadline) {
+			if time.Now().After(deadline) {
+				timedOut()
+				break
+			}
+			if st != "Starting" || na > 0 {
 				break
 			}
 			time.Sleep(20 * time.Microsecond)
@@ -593,6 +606,9 @@ func (h *harness) ack(who, id string, ck uint64) (s step) {
 			case <-h.loc.written:
 			case <-time.After(50 * time.Microsecond):
 			}
+		}
+		if o.Published == 0 {
+			timedOut()
 		}
 		if jc := h.loc.snapshot(ck); o.Published != 0 && (jc == nil || len(jc.OperatorCheckpoints) == 0) {
 			o.Published = 0
